@@ -820,6 +820,14 @@ pub fn emit(prop: &str, g: &mut Gen, out: &mut Vec<String>) {
                         let (y1, ..) = oracle::label(Rule::Gregorian, r);
                         push(out, format!("shape {ct} {y0} {}", (m0 % 12) + 1));
                         push(out, format!("year {ct} {}", (y0 + 1).min(y1)));
+                        // and nowhere else: any year of the type
+                        let y = match g.rng.below(3) {
+                            0 => g.rng.range(I32_MIN, I32_MAX),
+                            1 => clamp(g.dict_near(), I32_MIN, I32_MAX),
+                            _ => clamp(*g.rng.pick(&[I32_MIN, I32_MAX, 21_474_836, 21_474_837, -21_474_837, 42_949_673, -42_949_673]) + g.rng.range(-2, 2), I32_MIN, I32_MAX),
+                        };
+                        push(out, format!("shape {ct} {y} {}", g.rng.range(1, 12)));
+                        push(out, format!("year {ct} {y}"));
                     }
                 }
             }
